@@ -252,6 +252,49 @@ PIPELINES.append(Pipeline('U_StringTable_add', units=[U_stadd], prelude=st_prelu
     canaries=['canary:normal', 'canary:throw'], replay=('c01_codec', lambda cex, o: ['densetags']),
     note='relative to contracts for the hash index and the string store; the index written by the encoders is the position the reader resolves'))
 
+# ---- XML writer: a changeset element carries its tags and its discussion exactly when they exist ------------------------------------------------
+XOUT = 'include/osmium/io/detail/xml_output_format.hpp'
+XOUT_PRELUDE = '''
+struct XMLOutputBlock { int m_out; };
+/* ghost: what the changeset has, and which parts of the element were written */
+_Bool ghost_tags_empty, ghost_discussion_empty;
+_Bool ghost_selfclosed, ghost_opened, ghost_closed, ghost_wrote_tags, ghost_wrote_discussion;
+int verif_nondet_int(void) { int verif_any; return verif_any; }   /* any attribute value */
+'''
+
+
+def xml_out_ops(body, R):
+    """`*m_out += X;` -> an event for the three literals that structure the element, nothing for attribute text"""
+    ev = {r'"/>\n"': 'ghost_selfclosed = 1;', r'">\n"': 'ghost_opened = 1;', r'" </changeset>\n"': 'ghost_closed = 1;'}
+    n = [0]
+    def rep(m):
+        n[0] += 1
+        return ev.get(m.group(1).strip(), '/* text */;')
+    body = re.sub(r'\*m_out \+= ([^;]*);', rep, body)
+    for lit in ev:
+        pass
+    if n[0] == 0 or 'ghost_selfclosed' not in body or 'ghost_opened' not in body or 'ghost_closed' not in body:
+        raise cx.ExtractError('XML changeset writer: the literals "/>", ">" and "</changeset>" were not all found')
+    R.hit('unit_rewrite:*m_out += ...', n[0])
+    return body
+
+
+U_xcs = Unit(XOUT, 'changeset', cls='XMLOutputBlock', selftype='struct XMLOutputBlock', params=['const int* changeset_p'],
+             pre=[xml_out_ops, (r'(?:write_attribute|append_xml_encoded_string|detail::append_lat_lon_attributes)\([^;]*\);', '/* attribute */;'),
+                  (r'write_tags\(changeset\.tags\(\), 0\);', 'ghost_wrote_tags = 1;'), (r'write_discussion\(changeset\.discussion\(\)\);', 'ghost_wrote_discussion = 1;'),
+                  (r'changeset\.tags\(\)\.empty\(\)', 'ghost_tags_empty', '?'), (r'changeset\.discussion\(\)\.empty\(\)', 'ghost_discussion_empty', '?'),
+                  (r'changeset\.\w+\(\)(?:\.\w+\(\))*', 'verif_nondet_int()')])
+PIPELINES.append(Pipeline('U_xml_changeset_element', units=[U_xcs], prelude=XOUT_PRELUDE, contracts={'XMLOutputBlock_changeset': [
+    ('pre', 'requires', '__CPROVER_is_fresh(self, sizeof(*self)) && !ghost_selfclosed && !ghost_opened && !ghost_closed && !ghost_wrote_tags && !ghost_wrote_discussion && ghost_tags_empty <= 1 && ghost_discussion_empty <= 1'),
+    ('post:the discussion is written exactly when the changeset has one, whatever its attributes (comments_count included) say', 'ensures', 'ghost_wrote_discussion == !ghost_discussion_empty'),
+    ('post:the tags are written when there are any', 'ensures', 'ghost_tags_empty || ghost_wrote_tags'),
+    ('post:the element is either self-closed or opened and closed, and self-closed only when it has no content', 'ensures',
+     'ghost_selfclosed != (ghost_opened && ghost_closed) && ghost_opened == ghost_closed && (!ghost_selfclosed || (ghost_tags_empty && ghost_discussion_empty && !ghost_wrote_tags && !ghost_wrote_discussion))'),
+    ('frame', 'assigns', 'ghost_selfclosed, ghost_opened, ghost_closed, ghost_wrote_tags, ghost_wrote_discussion')]},
+    enforce='XMLOutputBlock_changeset', harness='void harness(void) { struct XMLOutputBlock* b; const int* c; XMLOutputBlock_changeset(b, c); __CPROVER_assert(0, "canary"); }',
+    noflags=['--conversion-check'], replay=('c01_codec', lambda cex, o: ['xmlchangeset']),
+    note='the output string is replaced by a ghost record of the structural literals; attribute values are arbitrary'))
+
 # ---- PBF non-dense objects: the Info message carries exactly the enabled metadata with the object's values ---------------------------------
 OBJ = 'include/osmium/osm/object.hpp'
 ITEM = 'include/osmium/memory/item.hpp'
